@@ -17,9 +17,10 @@ use crate::formatter::sequence::*;
 use crate::formatter::trivia::*;
 
 pub(super) use self::comments::{
-    append_trailing_statement_suffix, comment_is_inline_after_anchor,
-    extract_trailing_comment_rendered, has_inline_non_trivia_after, render_comment_with_spacing,
-    render_direct_body_comment, source_order_token_is_trailing_statement_semicolon,
+    append_trailing_comment_suffix, append_trailing_statement_suffix,
+    comment_is_inline_after_anchor, extract_trailing_comment_rendered, has_inline_non_trivia_after,
+    render_comment_with_spacing, render_direct_body_comment,
+    source_order_token_is_trailing_statement_semicolon,
 };
 use self::control::{
     render_do_stat, render_for_range_stat, render_for_stat, render_func_stat, render_if_stat,
@@ -106,8 +107,20 @@ fn render_layout_node(
             LuaSyntaxKind::ConstStat => render_local_stat(ctx, root, syntax_plan.syntax_id, plan),
             LuaSyntaxKind::AssignStat => render_assign_stat(ctx, root, syntax_plan.syntax_id, plan),
             LuaSyntaxKind::ReturnStat => render_return_stat(ctx, root, syntax_plan.syntax_id, plan),
-            LuaSyntaxKind::BreakStat => render_break_stat(root, syntax_plan.syntax_id),
-            LuaSyntaxKind::ContinueStat => render_continue_stat(root, syntax_plan.syntax_id),
+            LuaSyntaxKind::BreakStat => with_trailing_comment(
+                ctx,
+                root,
+                syntax_plan.syntax_id,
+                plan,
+                render_break_stat(root, syntax_plan.syntax_id),
+            ),
+            LuaSyntaxKind::ContinueStat => with_trailing_comment(
+                ctx,
+                root,
+                syntax_plan.syntax_id,
+                plan,
+                render_continue_stat(root, syntax_plan.syntax_id),
+            ),
             LuaSyntaxKind::WhileStat => render_while_stat(ctx, root, syntax_plan, plan),
             LuaSyntaxKind::ForStat => render_for_stat(ctx, root, syntax_plan, plan),
             LuaSyntaxKind::ForRangeStat => render_for_range_stat(ctx, root, syntax_plan, plan),
@@ -119,10 +132,38 @@ fn render_layout_node(
             LuaSyntaxKind::CallExprStat => {
                 render_call_expr_stat(ctx, root, syntax_plan.syntax_id, plan)
             }
-            LuaSyntaxKind::EmptyStat => render_empty_stat(root, syntax_plan.syntax_id),
-            _ => render_unmigrated_syntax_leaf(root, syntax_plan.syntax_id),
+            LuaSyntaxKind::EmptyStat => with_trailing_comment(
+                ctx,
+                root,
+                syntax_plan.syntax_id,
+                plan,
+                render_empty_stat(root, syntax_plan.syntax_id),
+            ),
+            _ => with_trailing_comment(
+                ctx,
+                root,
+                syntax_plan.syntax_id,
+                plan,
+                render_unmigrated_syntax_leaf(root, syntax_plan.syntax_id),
+            ),
         },
     }
+}
+
+/// Statements rendered as plain leaves (break, goto, labels, ...) have no renderer of their own that
+/// would emit their inline trailing comment, and the block loop skips such comments on the assumption
+/// that the statement renderer does.
+fn with_trailing_comment(
+    ctx: &FormatContext,
+    root: &LuaSyntaxNode,
+    syntax_id: LuaSyntaxId,
+    plan: &FormatPlan,
+    mut docs: Vec<DocIR>,
+) -> Vec<DocIR> {
+    if let Some(node) = find_node_by_id(root, syntax_id) {
+        append_trailing_comment_suffix(ctx, plan, &mut docs, &node);
+    }
+    docs
 }
 
 fn render_format_disabled_layout_node(
@@ -275,7 +316,11 @@ fn render_aligned_block_layout_nodes(
             continue;
         }
 
-        if layout_comment_is_inline_trailing(root, nodes, index) {
+        // The comment behind a skipped empty statement has no statement left to trail: keep it as
+        // a comment of its own instead of dropping it together with the `;`.
+        if layout_comment_is_inline_trailing(root, nodes, index)
+            && !(index > 0 && layout_node_should_be_skipped_in_block(nodes, index - 1))
+        {
             index += 1;
             continue;
         }
